@@ -1,0 +1,27 @@
+//go:build !verif
+// +build !verif
+
+// Package verifhook holds observation points used by the external
+// verification harness. Without the "verif" build tag every function in
+// this package is empty and is inlined away.
+package verifhook
+
+import "unsafe"
+
+// Point marks an access to state shared between goroutines.
+func Point(id int, addr unsafe.Pointer, write bool) {}
+
+// Slot marks an access to one slot of the encoder's pointer stack.
+func Slot(base uintptr, idx uint32, store bool) {}
+
+// SlotRegion announces the current extent of the encoder's pointer stack.
+func SlotRegion(data unsafe.Pointer, n int) {}
+
+// EncBind reports which compiled program was selected for a type.
+func EncBind(typeptr uintptr, setType unsafe.Pointer) {}
+
+// DecBind reports which decoder cache slot (or -1: map cache) serves a type.
+func DecBind(index int, typeptr uintptr) {}
+
+// ExactPtrs reports whether pooled pointer stacks must be sized exactly.
+func ExactPtrs() bool { return false }
